@@ -285,9 +285,11 @@ def setrep(tier, seed, runner, lines):
             if fails(cand): cur = cand
             else: j += 1
         detail = ('setrep\nthe in-place edit of the stored representation differs from the operational model (%s)\nstep: %s\nmodel answer: %s' % (
-            {'MISMATCH': 'C++ state after the call != model state after the call', 'RECORD-MISMATCH': 'the state after the call is not a representation of the record the setter should produce',
+            {'MISMATCH': 'C++ state after the call != model state after the call, and it is not a representation of the record the call should produce',
+             'MISMATCH-EQUIV': 'C++ state after the call != model state after the call, but it IS a representation of the right record (only the pattern of never-started parts differs): the correspondence of the operational model no longer checks, no wrong result is known',
+             'RECORD-MISMATCH': 'the state after the call is not a representation of the record the setter should produce',
              'BADSTATE': 'the state BEFORE the call is not the layout of any record: an earlier operation left a representation that no parse produces'}.get(cls, cls), s[:1200], a[:1200]))
-        viol.append(('setrep', cur, detail, True))
+        viol.append(('setrep', cur, detail, cls != 'MISMATCH-EQUIV'))
     return {'coverage': cov, 'violations': viol}
 
 
